@@ -38,7 +38,7 @@ const (
 	c14Day = 24 * int64(time.Hour)
 	// generator mix: a restart is a whole export + InitChainer of a fresh application (two orders of
 	// magnitude dearer than a message), hence per mille
-	c14RestartPerMille   = 40
+	c14RestartPerMille   = 30
 	c14SetParamsPerMille = 25
 	c14DirectedPct       = 20
 )
